@@ -10,6 +10,9 @@ package bpv7
 //	mut  <orighex> <off> <xorhex> <verdict>   ParseBundle on orig with <xorhex> xor-ed in at byte <off>
 //	direct <name> <hex> <verdict>      hand-made encodings (CRC type / array length edge, non-shortest heads)
 //	adversarial <hex> <off> <xorhex> <verdict> <verdict-mutated>   crafted payload, one bit of its length flipped
+//	after <mutatedhex> <verdict-mutated> <pristinehex> <reserialisedhex> <verdict-pristine>
+//	     state carried over a FAILED parse: directly after the failed parse of <mutatedhex> the known-good
+//	     bundle object is serialised again and its pristine encoding is parsed again, in the same process
 //
 // verdict = accept | crc ("invalid CRC value") | other | panic
 
@@ -233,6 +236,31 @@ func (vb *verifC03Bundle) widthAt(i int) int {
 	return 16
 }
 
+// state of the "after a failed parse" stream
+var (
+	verifC03Cur   *Bundle // known-good object whose encoding is being mutated
+	verifC03Fails int
+	verifC03Every = 41
+)
+
+// verifC03After: the parse of `mutated` has just failed. Serialise the good object and parse its pristine
+// encoding; both must be untouched by whatever the failed parse left behind (scratch buffers, pools, …).
+func verifC03After(w *bufio.Writer, b *Bundle, mutated []byte, mv string, pristine []byte) {
+	var enc bytes.Buffer
+	reser := "err"
+	func() {
+		defer func() {
+			if rec := recover(); rec != nil {
+				reser = "panic"
+			}
+		}()
+		if err := b.MarshalCbor(&enc); err == nil {
+			reser = verifC03Hex(enc.Bytes())
+		}
+	}()
+	fmt.Fprintf(w, "after %s %s %s %s %s\n", verifC03Hex(mutated), mv, verifC03Hex(pristine), reser, verifC03Parse(pristine))
+}
+
 func verifC03Mut(w *bufio.Writer, origHex string, orig []byte, off int, x []byte) {
 	allZero := true
 	for _, v := range x {
@@ -247,7 +275,14 @@ func verifC03Mut(w *bufio.Writer, origHex string, orig []byte, off int, x []byte
 	for i, v := range x {
 		m[off+i] ^= v
 	}
-	fmt.Fprintf(w, "mut %s %d %s %s\n", origHex, off, verifC03Hex(x), verifC03Parse(m))
+	v := verifC03Parse(m)
+	fmt.Fprintf(w, "mut %s %d %s %s\n", origHex, off, verifC03Hex(x), v)
+	if v != "accept" && verifC03Cur != nil {
+		verifC03Fails++
+		if verifC03Fails%verifC03Every == 0 {
+			verifC03After(w, verifC03Cur, m, v, orig)
+		}
+	}
 }
 
 // burst in CRC bit order (bit i of the encoding = bit i%8, counted from the least significant, of byte i/8)
@@ -268,6 +303,8 @@ func verifC03Mutations(w *bufio.Writer, r *verifC03Rng, vb *verifC03Bundle, perS
 	orig := vb.enc
 	oh := verifC03Hex(orig)
 	nbits := 8 * len(orig)
+	verifC03Cur = &vb.b
+	defer func() { verifC03Cur = nil }()
 	// every single bit
 	for i := 0; i < nbits; i += stride {
 		j := i
@@ -646,6 +683,15 @@ func verifC03Replay(t *testing.T, w *bufio.Writer, path string) {
 		off, _ := strconv.Atoi(fs[2])
 		orig := unhex(fs[1])
 		verifC03Mut(w, fs[1], orig, off, unhex(fs[3]))
+	case fs[0] == "after" && len(fs) >= 4:
+		pristine := unhex(fs[3])
+		b, err := ParseBundle(bytes.NewReader(pristine))
+		if err != nil {
+			fmt.Fprintf(w, "# replay: pristine bundle does not parse: %v\n", err)
+			return
+		}
+		m := unhex(fs[1])
+		verifC03After(w, &b, m, verifC03Parse(m), pristine)
 	case fs[0] == "orig" && len(fs) >= 2:
 		fmt.Fprintf(w, "orig %s %s\n", fs[1], verifC03Parse(unhex(fs[1])))
 	case fs[0] == "direct" && len(fs) >= 3:
